@@ -49,6 +49,8 @@ class OptInterp(ObjInterp):
         self.flag = flag
         self.storage = storage
         self.triv = {}
+        self.tcopy = {}
+        self.storage_name = None
 
     def is_own_fn(self, f):
         if f.get('rec') == OPT:
@@ -248,6 +250,16 @@ class OptInterp(ObjInterp):
             return [self.set_obj(st, cand, storage='L')]
         if k == 'CXXOperatorCallExpr' and tu.sd(n).get('q', '').endswith('::operator=') and tu.sd(n).get('rec') != OPT:
             sd_, objx_, args_ = tu.call_parts(n)
+            if objx_ is not None and args_ and self.storage_name:
+                dst = self.field_obj(objx_, fr, self.storage_name)
+                a0 = tu.strip(args_[0], casts=True)
+                if a0 is not None and a0.get('kind') == 'CallExpr' and tu.sd(a0).get('q') in ('std::move', 'std::forward') and len(tu.kids(a0)) == 2:
+                    a0 = tu.kids(a0)[1]
+                src = self.field_obj(a0, fr, self.storage_name)
+                if dst is not None and src is not None and self.tcopy.get(dst) and thaw(st).get(src) and thaw(st).get(dst):
+                    # assignment of the whole storage array, payload trivially copyable: a byte copy is that type's copy operation, the
+                    # destination holds a live payload exactly when the source does (R-C09-7 judges the other payload types)
+                    return [self.set_obj(st, dst, storage=thaw(st)[src][0])]
             if objx_ is not None and self.payload_of(objx_, st, fr) is not None and 'noexcept' not in sd_.get('fty', ''):
                 # assignment into the payload may throw: the function is left in the current state
                 self.report('exc-state', 'the payload assignment throws', n, fr, st)
@@ -401,6 +413,17 @@ def check_optional(ctx, tu):
             # value assignment from a reference: the argument may refer to (part of) the payload this Optional holds (`o = *o`)
             objs['@rhs'] = ['AA']
         it.triv = triv
+        tcopy = {}
+        if f.get('rec'):
+            r = tu.records.get(f['recid'])
+            tcopy['this'] = bool(r and r.get('targs') and r['targs'][0].get('trivially_copyable'))
+        for p in f['params']:
+            ok, t = is_opt_type(p['ct'])
+            if ok and p['id'] in env:
+                r = tu.records_by_type.get(t)
+                tcopy[env[p['id']]] = bool(r and r.get('targs') and r['targs'][0].get('trivially_copyable'))
+        it.tcopy = tcopy
+        it.storage_name = (opt_fields(tu) or (None, None))[1]
         it.memo = {}  # summaries depend on the trivial-destructor table of the current entry
         names = sorted(objs)
         inits = [()]
@@ -519,9 +542,11 @@ def check_layout(ctx, tu):
 class AnyInterp(ObjInterp):
     """per object: 'V' (holder non-null) / 'N' (holder null)"""
 
-    def __init__(self, tu, holder):
+    def __init__(self, tu, holder, holder_ct='', holder_qt=''):
         super().__init__(tu)
         self.holder = holder
+        self.holder_ct = holder_ct
+        self.holder_qt = holder_qt or holder_ct
         self.nullable_calls = {}
 
     def is_own_fn(self, f):
@@ -536,10 +561,22 @@ class AnyInterp(ObjInterp):
     def holder_obj(self, e, fr):
         tu = self.tu
         e = tu.strip(e, casts=True)
+        if e is not None and e.get('kind') == 'DeclRefExpr':
+            # a local of the holder's own type (`std::unique_ptr<handle_base> fresh;`) is tracked like a holder member
+            d = tu.node(e.get('referencedDecl', {}).get('id'))
+            if d is not None and d.get('kind') == 'VarDecl' and self.is_holder_local(d):
+                return '%' + d.get('name', '?')
+            return None
         if e is None or e.get('kind') != 'MemberExpr' or e.get('name') != self.holder:
             return None
         ks = tu.kids(e)
         return self.obj_of(ks[0], fr) if ks else None
+
+    def is_holder_local(self, d):
+        t = d.get('type', {})
+        qt = (t.get('desugaredQualType') or t.get('qualType', '')).replace('const ', '').strip()
+        return bool(self.holder_ct) and ('unique_ptr' in self.holder_ct or 'shared_ptr' in self.holder_ct) and \
+            qt.replace(' ', '') in (self.holder_ct.replace(' ', ''), self.holder_qt.replace(' ', ''))
 
     def ptr_obj(self, e, fr):
         """obj if e evaluates to the raw holder pointer of obj: X.holder.get() / X.holder (bool ctx)"""
@@ -582,6 +619,24 @@ class AnyInterp(ObjInterp):
             cache[key] = out
         return cache[key]
 
+    def addr_obj(self, e, fr):
+        """tracked object whose address the expression is: `this`, `&x`, `std::addressof(x)`"""
+        tu = self.tu
+        e = tu.strip(e, casts=True)
+        if e is None:
+            return None
+        k = e.get('kind')
+        if k == 'CXXThisExpr' or (k == 'UnaryOperator' and e.get('opcode') == '&') or \
+                (k == 'CallExpr' and tu.sd(e).get('q') == 'std::addressof'):
+            return self.obj_of(e, fr)
+        return None
+
+    def _old_payload_destroyed(self, d, o):
+        """the holder of `o` is about to be replaced / reset while it owns a payload: the by-reference argument of a copy
+        assignment may live inside that payload (`node = node.get<std::vector<Any>>()[1]`) and dangles from here on"""
+        if o == 'this' and d.get(o) != 'N' and d.get('@rhs') == 'AA':
+            d['@rhs'] = 'DD'
+
     def is_null(self, e):
         e = self.tu.strip(e, casts=True)
         if e is None:
@@ -619,6 +674,10 @@ class AnyInterp(ObjInterp):
             else:
                 op = e.get('opcode')
             if len(ks) == 2:
+                oa, ob = (self.addr_obj(x, fr) for x in ks)
+                if oa is not None and ob is not None:
+                    # `this == &rhs`: entries are analysed for distinct objects (self-assignment is the separate aliasing clause)
+                    return (oa == ob) if op == '==' else (oa != ob)
                 for a, b in ((ks[0], ks[1]), (ks[1], ks[0])):
                     o = self.ptr_obj(a, fr)
                     if o is not None and self.is_null(b):
@@ -708,6 +767,28 @@ class AnyInterp(ObjInterp):
     def on_node(self, n, st, fr):
         tu = self.tu
         k = n.get('kind')
+        if k == 'DeclStmt':
+            vds = [x for x in tu.kids(n) if x.get('kind') == 'VarDecl']
+            if vds and all(self.is_holder_local(x) for x in vds):
+                sts = [st]
+                for x in vds:
+                    init = tu.kids(x)[-1] if tu.kids(x) else None
+                    nxt = []
+                    for s_ in sts:
+                        v = self.holder_value(init, s_, fr) if init is not None else 'N'
+                        d = thaw(s_)
+                        for vv in ((v,) if v is not None else ('V', 'N')):
+                            nxt.append(freeze(dict(d, **{'%' + x.get('name', '?'): vv})))
+                    sts = nxt
+                return sts
+        if k == 'MemberExpr' and n.get('name') == self.holder:
+            d = thaw(st)
+            if d.get('@rhs') == 'DD' and self.holder_obj(n, fr) == getattr(self, 'rhs_name', None):
+                self.report('source-read-after-release', 'the source of the copy assignment is read after the target released the payload it '
+                            'owned; the source is a reference that may live inside that payload (`node = node.get<std::vector<Any>>()[1]`), '
+                            'so it is read - and cloned - after its lifetime ended; cloning first and releasing afterwards '
+                            '(copy, then move/swap in) has no such window', n, fr, st)
+            return None
         if k == 'CXXOperatorCallExpr':
             sd, obj, args = tu.call_parts(n)
             name = sd.get('q', '').split('::')[-1]
@@ -723,6 +804,7 @@ class AnyInterp(ObjInterp):
                     if name == 'operator=' and args:
                         v = self.holder_value(args[0], st, fr)
                         d = thaw(st)
+                        self._old_payload_destroyed(d, o)
                         if v is None:
                             return [freeze(dict(d, **{o: 'V'})), freeze(dict(d, **{o: 'N'}))]
                         d[o] = v
@@ -737,7 +819,7 @@ class AnyInterp(ObjInterp):
                     y = self.ptr_obj(a, fr)
                     if y is not None and thaw(st).get(y) != 'V':
                         self.nullable_calls.setdefault((sd.get('q'), idx), (n, fr.fn, y))
-            if obj is not None and tu.strip(obj, casts=True).get('kind') == 'DeclRefExpr':
+            if obj is not None and tu.strip(obj, casts=True).get('kind') == 'DeclRefExpr' and self.holder_obj(obj, fr) is None:
                 o2 = self.ptr_obj(obj, fr)          # call through a local alias of the raw holder pointer
                 if o2 is not None and thaw(st).get(o2) != 'V':
                     self.report('null-deref', 'holder pointer of `%s` (held in local `%s`) is dereferenced on a path where `%s` may be empty '
@@ -752,6 +834,8 @@ class AnyInterp(ObjInterp):
                         return [freeze(d)]
                 if o is not None and name in ('reset', 'release'):
                     d = thaw(st)
+                    if name == 'reset':
+                        self._old_payload_destroyed(d, o)
                     args = [a for a in args if a.get('kind') != 'CXXDefaultArgExpr']
                     if name == 'reset' and args:
                         v = self.holder_value(args[0], st, fr)
@@ -781,7 +865,7 @@ def check_any(ctx, tu):
         ctx.broken('R-C09-3: cannot identify the holder member of %s' % ANY)
         return
     holder = holders[0]['name']
-    it = AnyInterp(tu, holder)
+    it = AnyInterp(tu, holder, holders[0]['ct'], holders[0].get('type', ''))
     n3 = 0
     for f in tu.functions.values():
         if f['dep'] or f.get('rec') != ANY or tu.cfg(f) is None:
@@ -799,6 +883,12 @@ def check_any(ctx, tu):
                 nm = p['name'] or 'arg'
                 env[p['id']] = nm
                 objs[nm] = ['V', 'N']
+        it.rhs_name = None
+        if f['q'].endswith('::operator=') and len(f['params']) == 1 and f['params'][0]['id'] in env \
+                and f['params'][0]['ct'].rstrip().endswith('&') and not f['params'][0]['ct'].rstrip().endswith('&&'):
+            # copy assignment: the argument may refer to an Any inside the payload that *this owns
+            objs['@rhs'] = ['AA']
+            it.rhs_name = env[f['params'][0]['id']]
         inits = [()]
         for nm in sorted(objs):
             inits = [i + ((nm, v),) for i in inits for v in objs[nm]]
@@ -812,7 +902,7 @@ def check_any(ctx, tu):
             ctx.undecided(R3, inst, u, tu.fn_loc(f))
         for st, outs, found in results:
             n3 += 1
-            d0 = thaw(st)
+            d0 = {k_: v_ for k_, v_ in thaw(st).items() if not k_.startswith('@')}
             label = '%s [%s]' % (inst, ', '.join('%s=%s' % kv for kv in sorted(d0.items())))
             if found:
                 for kind, detail, nid, chain, fst, infn in found:
@@ -821,7 +911,8 @@ def check_any(ctx, tu):
                     ctx.violation(R3, label, '%s (entry state %s)' % (detail, d0), tu.loc(nid),
                                   key='%s|%s|%s|%s' % (R3, tu.fn_file(inner), pattern_name(tu, inner), kind), path=path)
             else:
-                ctx.ok(R3, label, 'exits: %s' % sorted({tuple(sorted(thaw(s2).items())) for s2, _ in outs}), tu.fn_loc(f))
+                ctx.ok(R3, label, 'exits: %s' % sorted({tuple(sorted((k_, v_) for k_, v_ in thaw(s2).items() if not k_.startswith('@')))
+                                                        for s2, _ in outs}), tu.fn_loc(f))
             # R-C09-4: copy constructor / copy assignment results
             if f.get('ctor') == 'copy' or f.get('assign') == 'copy':
                 src = [nm for nm in d0 if nm != 'this']
@@ -1207,6 +1298,10 @@ def check_storage_bytes(ctx, tu):
                     uses.append(x)
         for u in uses:
             n += 1
+            dead = _statically_dead(tu, u)
+            if dead:
+                ctx.ok(R, '%s @%s' % (inst, tu.loc(u)), 'not reached for this payload type: %s' % dead, tu.loc(u), nontrivial=False)
+                continue
             if f['id'] in accessors and u.get('kind') == 'MemberExpr':
                 ctx.ok(R, '%s @%s' % (inst, tu.loc(u)), 'address accessor: returns the storage address, every call site is classified', tu.loc(u),
                        nontrivial=False)
@@ -1222,6 +1317,41 @@ def check_storage_bytes(ctx, tu):
             else:
                 ctx.undecided(R, inst, 'use of the storage member not classified: %s' % why, tu.loc(u))
     ctx.floor(R, n, 12, 'mentions of the storage member in Optional<std::string>, Optional<std::vector<int>>, Optional<Over64> members')
+
+
+def _statically_dead(tu, u):
+    """reason if the node lies in a branch of an if / conditional whose condition is a compile-time constant of this instantiation
+    (`if (std::is_trivially_copyable<T>::value)`) and the constant selects the other branch"""
+    cur = u
+    for _ in range(80):
+        p = tu.par(cur)
+        if p is None:
+            return None
+        if p.get('kind') in ('IfStmt', 'ConditionalOperator'):
+            ks = tu.kids(p)
+            parts = [x for x in ks if x.get('kind') not in ('DeclStmt',)] if p.get('kind') == 'IfStmt' else ks
+            # IfStmt children: [init], [condvar], cond, then, [else]
+            if p.get('kind') == 'IfStmt':
+                skip = (1 if p.get('hasInit') else 0) + (1 if p.get('hasVar') else 0)
+                parts = ks[skip:]
+            if len(parts) >= 2 and cur is not parts[0]:
+                cond = tu.strip(parts[0], casts=True)
+                neg = False
+                while cond is not None and cond.get('kind') == 'UnaryOperator' and cond.get('opcode') == '!':
+                    neg = not neg
+                    cond = tu.strip(tu.kids(cond)[0], casts=True)
+                cv = tu.sd(cond).get('cv') if cond is not None and cond.get('kind') not in (
+                    'CXXMemberCallExpr', 'CXXOperatorCallExpr', 'CallExpr') else None
+                if cv is not None:
+                    val = (cv != '0') != neg
+                    in_then = cur is parts[1]
+                    in_else = len(parts) > 2 and cur is parts[2]
+                    if (in_then and not val) or (in_else and val):
+                        return 'the enclosing condition `%s` is the constant %s here' % (tu.show(parts[0])[:80], 'true' if val else 'false')
+        if p.get('kind') in ('FunctionDecl', 'CXXMethodDecl', 'CXXConstructorDecl', 'CXXDestructorDecl', 'LambdaExpr'):
+            return None
+        cur = p
+    return None
 
 
 def _classify_storage_use(tu, u, payload):
